@@ -35,10 +35,10 @@ package os
 //@   use vpBasic(fsPath)
 //@   use vpBasic(fs.root)
 //@   use vpSplit(fs.root, fsPath)
-//@   use replaceHead(pjoin(rootOrDot(fs), fsPath), "/", "\\")
-//@   use replaceNoHead(pjoin(rootOrDot(fs), fsPath), "/", "\\")
-//@   use replaceHead("", "/", "\\")
-//@   use replaceEmpty("/", "\\")
+//@   use replaceHead(pjoin(rootOrDot(fs), fsPath), "/", string(separator))
+//@   use replaceNoHead(pjoin(rootOrDot(fs), fsPath), "/", string(separator))
+//@   use replaceHead("", "/", string(separator))
+//@   use replaceEmpty("/", string(separator))
 //@   ensures "gate" implies(!VP(fsPath), r == "" && e != nil && e.Err == hackpadfs.ErrInvalid && e.Path == fsPath && e.Op == op)
 //@   ensures "join" implies(VP(fsPath) && (separator == '/' || !hasPrefix(pjoin(rootOrDot(fs), fsPath), "\\")), e == nil && r == osPathOf(fs, goos, separator, fsPath))
 //@   ensures "inside" implies(VP(fsPath) && separator == '/', r == osPathOf(fs, goos, separator, ".") || hasPrefix(r, osPathOf(fs, goos, separator, ".") + "/") ||
@@ -46,7 +46,7 @@ package os
 //@   nopanic
 
 //@ spec stripVol(fs *FS, goos string, sep rune, osPath string) := unmapSep(sep, trimPrefix(trimPrefix(osPath, volOf(fs, goos)), string(sep)))
-//@ spec winLemmas(p string) := replaceHead(p, "/", "\\") && replaceHead("", "/", "\\") && replaceEmpty("/", "\\") && replaceEmpty("\\", "/") && replaceInverse(p, "/", "\\")
+//@ spec winLemmas(p string, s string) := replaceHead(p, "/", s) && replaceHead("", "/", s) && replaceEmpty("/", s) && replaceEmpty(s, "/") && replaceInverse(p, "/", s)
 
 //@ func (fs *FS) fromOSPath(goos string, separator rune, getVolumeName func(string) string, op string, osPath string) (r string, err error)
 //@   props C09 C05
@@ -57,7 +57,7 @@ package os
 //@   ensures "volume" implies(err == nil, apply(getVolumeName, osPath) == volOf(fs, goos))
 //@   ensures "valid" implies(err == nil, VP(r))
 //@   ensures "inside" implies(err == nil && fs.root != "" && fs.root != ".", under(stripVol(fs, goos, separator, osPath), fs.root))
-//@   ensures "inverse" forall(n, string, implies(vpBasic(n) && vpSplit(fs.root, n) && vpBasic(pjoin(rootOrDot(fs), n)) && winLemmas(pjoin(rootOrDot(fs), n)) &&
+//@   ensures "inverse" forall(n, string, implies(vpBasic(n) && vpSplit(fs.root, n) && vpBasic(pjoin(rootOrDot(fs), n)) && winLemmas(pjoin(rootOrDot(fs), n), string(separator)) &&
 //@                       VP(n) && (separator == '/' || !contains(pjoin(rootOrDot(fs), n), "\\")) &&
 //@                       osPath == osPathOf(fs, goos, separator, n) && apply(getVolumeName, osPath) == volOf(fs, goos), err == nil && r == n))
 //@   nopanic
